@@ -1,13 +1,18 @@
 From Coq Require Import ZArith List String Bool.
 From FV Require Import Base.Ser Base.Res C02.Model C02.ModelGlyf.
+From FV Require C02.ModelCmap.
 Import ListNotations.
 Open Scope string_scope.
+Definition cmap12_compile_t (hdr : Z * Z * Z * Z) (m : list (Z * Z)) : Res (list Z) :=
+  let '(format, step, reserved, language) := hdr in ModelCmap.cmap12_compile format step reserved language m.
 Definition reg : registry := [
   ("loca_compile", run1 loca_compile);
   ("loca_decompile", run2 loca_decompile);
   ("hmtx_compile", run1 hmtx_compile);
   ("hmtx_decompile", run3 hmtx_decompile);
   ("compileDeltasGreedy", run1 compileDeltasGreedy);
-  ("decompileCoordinates", run2 decompileCoordinates)
+  ("decompileCoordinates", run2 decompileCoordinates);
+  ("cmap12_compile", run2 cmap12_compile_t);
+  ("cmap12_decompile", run2 ModelCmap.cmap12_decompile)
 ].
 Definition fv_entry := dispatch reg.
